@@ -1174,7 +1174,15 @@ where
         }
         let mut safe = self.safe.write().await;
         if let None = safe.active_blob {
-            let blob_opt = safe.blobs.write().await.pop();
+            let blobs = safe.blobs.clone();
+            let mut blobs = blobs.write().await;
+            // Index of the last closed blob could have been dumped already, but active blob needs
+            // in-memory index. Load it while the blob is still in the closed list: neither an
+            // error nor a dropped future may lose the blob
+            if let Some(last) = blobs.iter_mut().last() {
+                last.load_index().await?;
+            }
+            let blob_opt = blobs.pop();
             if let Some(blob) = blob_opt {
                 safe.active_blob = Some(Box::new(ASRwLock::new(blob)));
                 Ok(())
